@@ -314,6 +314,8 @@ impl ISocket for ReqSocket {
     match command {
       Command::Stop => {
         self.ingress_engine.close();
+        // Unblock senders parked in wait_for_connection() (as PUSH / DEALER do).
+        self.load_balancer.deactivate();
         self.reply_available_notifier.notify_waiters();
       }
       _ => return Ok(false),
